@@ -147,13 +147,13 @@ def az_casts_f32_i8(file, V, fields, tier):
          f"all {V}<f32> with finite elements", timeout=tmo(V, 120))
 
 UF_NOTE = ("; the scalar f32 operation of the dependency is replaced (kani::stub) by an ARBITRARY deterministic function of the "
-           "argument bit patterns (Ackermann encoding), so the law is proved for every deterministic scalar operation, hence for the real one")
+           "argument bit patterns (Ackermann encoding, seeded with every lane's argument tuple; unseeded arguments get unconstrained values), so the law is proved for every deterministic scalar operation, hence for the real one")
 
-def ufcap(ncalls):
-    return 8 if ncalls <= 8 else 32 if ncalls <= 32 else 128
-def ufstubs(ncalls):
-    c = ufcap(ncalls)
-    return f"stubs(uf{c}_f32_abs_diff_eq, uf{c}_f32_relative_eq, uf{c}_f32_ulps_eq)"
+def ufcap(lanes):
+    return 4 if lanes <= 4 else 16 if lanes <= 16 else 64
+def ufstubs(lanes):
+    c = ufcap(lanes)
+    return f"stubs(uf{c}_seed, uf{c}_f32_abs_diff_eq, uf{c}_f32_relative_eq, uf{c}_f32_ulps_eq)"
 
 def accs_fields(fields):
     return " ".join(f"(.{f})" for f in fields.split())
@@ -161,10 +161,10 @@ def accs_fields(fields):
 def float_vec(file, V, fields, tier):
     p = f"{V.lower()}_f32"
     n = DIM[V]
-    emit(file, f"lift_inv_uf!{{c20_{p}_inv_uf, {V}<f32> ({fields}), uf{ufcap(2*n)}_f32_inv}}")
+    emit(file, f"lift_inv_uf!{{c20_{p}_inv_uf, {V}<f32> ({fields}), uf{ufcap(n)}_seed, uf{ufcap(n)}_f32_inv}}")
     meta(f"c20_{p}_inv_uf", tier, f"Inv::inv on {V}<f32>: r.i bit-equal to scalar Inv::inv(a.i) for all i",
          f"all {V}<f32>: every element any f32 bit pattern" + UF_NOTE, timeout=tmo(V))
-    emit(file, f"approx_uf!{{c20_{p}_abs_diff_eq_uf, c20_{p}_relative_eq_uf, c20_{p}_ulps_eq_uf, {V}<f32>, any_vec!({V}<f32> ({fields})), [{accs_fields(fields)}], {ufstubs(2*n)}}}")
+    emit(file, f"approx_uf!{{c20_{p}_abs_diff_eq_uf, c20_{p}_relative_eq_uf, c20_{p}_ulps_eq_uf, {V}<f32>, any_vec!({V}<f32> ({fields})), [{accs_fields(fields)}], {ufstubs(n)}}}")
     for m, extra in (("abs_diff_eq", "epsilon any f32"), ("relative_eq", "epsilon, max_relative any f32"), ("ulps_eq", "epsilon any f32, max_ulps any u32")):
         meta(f"c20_{p}_{m}_uf", tier, f"{m} on {V}<f32> == conjunction over the {n} element pairs of scalar f32 {m}",
              f"all pairs of {V}<f32> (any f32 bit patterns incl. NaN/inf), {extra}" + UF_NOTE, timeout=tmo(V))
@@ -200,14 +200,14 @@ def mats(file_q, file_t):
         tier_a = "quick" if n == 2 else "thorough"
         fa = file_q if tier_a == "quick" else file_t
         p = f"{lo}_f32"
-        emit(fa, f"approx_uf!{{c20_{p}_abs_diff_eq_uf, c20_{p}_relative_eq_uf, c20_{p}_ulps_eq_uf, {M}<f32>, any_{lo}(), [{pair_accs(n)}], {ufstubs(2*n*n)}, unwind {n+1}}}")
+        emit(fa, f"approx_uf!{{c20_{p}_abs_diff_eq_uf, c20_{p}_relative_eq_uf, c20_{p}_ulps_eq_uf, {M}<f32>, any_{lo}(), [{pair_accs(n)}], {ufstubs(n*n)}, unwind {n+1}}}")
         for m, extra in (("abs_diff_eq", "epsilon any f32"), ("relative_eq", "epsilon, max_relative any f32"), ("ulps_eq", "epsilon any f32, max_ulps any u32")):
             meta(f"c20_{p}_{m}_uf", tier_a, f"{m} on {desc}<f32> == conjunction over the {n*n} element pairs (i,j) of scalar f32 {m}",
                  f"all pairs of {desc}<f32> (any f32 bit patterns incl. NaN/inf), {extra}" + UF_NOTE, timeout=300)
 
 def quats(file_q):
     mk = "Quaternion::<f32> { x: kani::any(), y: kani::any(), z: kani::any(), w: kani::any() }"
-    emit(file_q, f"approx_uf!{{c20_quat_f32_abs_diff_eq_uf, c20_quat_f32_relative_eq_uf, c20_quat_f32_ulps_eq_uf, Quaternion<f32>, {mk}, [(.x) (.y) (.z) (.w)], {ufstubs(8)}}}")
+    emit(file_q, f"approx_uf!{{c20_quat_f32_abs_diff_eq_uf, c20_quat_f32_relative_eq_uf, c20_quat_f32_ulps_eq_uf, Quaternion<f32>, {mk}, [(.x) (.y) (.z) (.w)], {ufstubs(4)}}}")
     for m, extra in (("abs_diff_eq", "epsilon any f32"), ("relative_eq", "epsilon, max_relative any f32"), ("ulps_eq", "epsilon any f32, max_ulps any u32")):
         meta(f"c20_quat_f32_{m}_uf", "quick", f"{m} on Quaternion<f32> == conjunction over x,y,z,w of scalar f32 {m}",
              f"all pairs of Quaternion<f32> (any f32 bit patterns incl. NaN/inf), {extra}" + UF_NOTE, timeout=60)
